@@ -86,7 +86,7 @@ def _dt_value(env, cfg, name, lo, hi):
     """symbolic (dimension-tracked) or pinned time unit"""
     if cfg.get("dt") in (None, "sym"):
         return env.real(name, lo, hi, dim=1)
-    return env.fixed(name, cfg["dt"])
+    return env.fixed(name, cfg["dt"], dim=1)
 
 
 def scenario_constant(env, cfg):
@@ -116,8 +116,7 @@ def scenario_constant(env, cfg):
         env.prove(f"minimal:{j}", O.lor(a - dt < ts[j], a - prev <= dt * (1 + TOL)), info=True)
         env.observe(f"a{j}", a)
         prev = a
-    if cfg.get("dt") in (None, "sym"):
-        env.homogeneous("time-scale-homogeneity")
+    env.homogeneous("time-scale-homogeneity")
     env.reach()
 
 
@@ -166,7 +165,7 @@ def scenario_logarithmic(env, cfg):
     ti = _module()
     m = cfg["m"]
     dt0 = _dt_value(env, cfg, "dt0", 1 / 64, 16)
-    f = env.real("factor", 1, 4, dim=0) if cfg.get("factor") in (None, "sym") else env.fixed("factor", cfg["factor"])
+    f = env.real("factor", 1, 4, dim=0) if cfg.get("factor") in (None, "sym") else env.fixed("factor", cfg["factor"], dim=0)
     tstart = env.real("tstart", -64, 64, dim=1) if cfg["t_start"] else None
     ts = _queries(env, m)
     intr = ti.LogarithmicInterrupts(dt0, f, t_start=tstart)
@@ -189,8 +188,7 @@ def scenario_logarithmic(env, cfg):
         env.observe(f"a{j}", a)
         prev = a
         inc = inc * f
-    if cfg.get("dt") in (None, "sym"):
-        env.homogeneous("time-scale-homogeneity")
+    env.homogeneous("time-scale-homogeneity")
     env.reach()
 
 
